@@ -97,8 +97,10 @@ def run(ctx) -> None:
     cc = prog.func("openpectus.engine.command_manager:CommandManager.cancel_commands")
     ctx.analysed(cc)
     g = cfg_of(cc)
-    loops = [n for n in g.nodes if n.kind == "for" and "cmd_executing" in norm(n.ast.iter) or (
-        n.kind == "for" and norm(n.ast.iter) == "reqs")]
+    from ..util import local_single_defs as _lsd
+    cdefs = _lsd(cc)
+    loops = [n for n in g.nodes if n.kind == "for" and ("cmd_executing" in norm(n.ast.iter) or (
+        isinstance(n.ast.iter, ast.Name) and n.ast.iter.id in cdefs and "cmd_executing" in norm(cdefs[n.ast.iter.id])))]
     if not loops:
         raise AnchorError("cancel_commands: loop over executing requests not found")
     lp = loops[0]
